@@ -142,6 +142,30 @@ def handle (j : Json) : P Json := do
       pure (Json.mkObj [("rejected", .str cls), ("detail", .str (match e with
         | .missingInput l => ",".intercalate l | .valueError w => w | .configError w => w))])
     | .ran out w => pure ((encRunOut out).setObjVal! "overrideWarnings" (.num (JsonNumber.fromNat w)))
+  | "mapc" =>
+    -- checked map: options, map_over names, select, required inputs — then (and only then) the map itself
+    let prog := elabProgram (← list graphSpec (← field j "program"))
+    let root ← nat (fieldD j "root" (.num (JsonNumber.fromNat (prog.length - 1))))
+    let values ← pairs val (fieldD j "values" (.arr #[]))
+    let cfg ← runCfg (fieldD j "cfg" (Json.mkObj []))
+    let rn ← runner j
+    let mo ← list str (← field j "mapOver")
+    let mode ← (do match (← str (fieldD j "mode" (.str "zip"))) with
+      | "zip" => pure MapMode.zip | "product" => pure .product | s => throw s!"bad mode {s}")
+    let em ← (do match (← str (fieldD j "mapErr" (.str "raise"))) with
+      | "raise" => pure ErrMode.raise | "continue" => pure .cont | s => throw s!"bad errMode {s}")
+    let k : Option Int ← (match fieldD j "k" .null with | .null => pure none | e => do pure (some (← int e)))
+    let ep : Option HG.Name ← (match fieldD j "entrypoint" .null with | .null => pure none | e => do pure (some (← str e)))
+    match mapChecked bodySem rn prog root values mo mode em cfg k ep with
+    | .rejected e =>
+      let cls := match e with
+        | .missingInput _ => "MissingInputError" | .valueError _ => "ValueError" | .configError _ => "GraphConfigError"
+      pure (Json.mkObj [("rejected", .str cls), ("detail", .str (match e with
+        | .missingInput l => ",".intercalate l | .valueError w => w | .configError w => w))])
+    | .ran m =>
+      pure (Json.mkObj [("results", .arr (m.results.map encRunOut).toArray),
+        ("raised", match m.raised with | some e => .str (encErr e) | .none => .null),
+        ("log", .arr (m.log.map encLog).toArray)])
   | "specsel" =>
     let prog := elabProgram (← list graphSpec (← field j "program"))
     let g := prog.getD (prog.length - 1) default
